@@ -172,7 +172,7 @@ func roundTrip[T any](run *vk.Run, r *rand.Rand, kind, scratch string, value, ot
 		return
 	}
 	// seed a previous value so that delete has something to remove
-	wantType := state.EntityType(value)
+	wantType := state.EntityType(other) // (other is never nil; value may be a nil pointer)
 	if o.EType {
 		wantType = "custom/type"
 	}
@@ -326,6 +326,59 @@ func typesOf(evs []*ebu.StoredEvent) []string {
 	return l
 }
 
+// batchTrip: a longer run of messages (more than nine, so that decimal offsets change length) through
+// publish, store and Materializer.Replay: every one of them reaches the materializer.
+func batchTrip(run *vk.Run, r *rand.Rand, kind, scratch string) {
+	st, err := stores.Open(kind, scratch)
+	if err != nil {
+		panic(err)
+	}
+	defer func() { st.Close(); st.Remove() }()
+	bus := ebu.New(ebu.WithStore(st.Store))
+	n := 10 + r.IntN(15)
+	want := map[string]Entity{}
+	for i := 0; i < n; i++ {
+		e := genEntity(r)
+		key := fmt.Sprintf("k%d", i)
+		var msg *state.ChangeMessage
+		if i%4 == 3 {
+			key = fmt.Sprintf("k%d", i-1)
+			msg, err = state.Update(key, e)
+		} else {
+			msg, err = state.Insert(key, e)
+		}
+		if err != nil {
+			run.Violation("statemsg:constructor-error", err.Error(), nil)
+			return
+		}
+		want[key] = e
+		ebu.Publish(bus, *msg)
+	}
+	for _, sessions := range []int{1, 2} {
+		mat := state.NewMaterializer(state.WithStrictSchema())
+		coll := state.NewTypedCollection[Entity](state.NewMemoryStore[Entity]())
+		state.RegisterCollection(mat, coll)
+		for s := 0; s < sessions; s++ {
+			// (two sessions: the second replays from the start again - an idempotent re-application)
+			if err := mat.Replay(context.Background(), bus, ebu.OffsetOldest); err != nil {
+				run.Violation("statemsg:batch-replay-error", fmt.Sprintf("[%s] Materializer.Replay of %d helper-built messages failed: %v", kind, n, err), map[string]any{"store": kind, "messages": n})
+				return
+			}
+		}
+		for key, e := range want {
+			got, ok := coll.Get(key)
+			x, _ := json.Marshal(&e)
+			y, _ := json.Marshal(&got)
+			if !ok || !jgen.JSONEqual(x, y) {
+				run.Violation("statemsg:batch-materialized-entity", fmt.Sprintf("[%s] %d messages published, stored and replayed into a materializer (%d replay sessions from the start): key %q holds %s (present=%v), the last message for it carried %s", kind, n, sessions, key, y, ok, x), map[string]any{"store": kind, "messages": n, "key": key})
+				return
+			}
+		}
+	}
+	run.Case(fmt.Sprintf("batch|%s|n%d", kind, n/5), true)
+	run.Count("batch_messages_replayed", int64(n))
+}
+
 func TestC19RoundTrip(t *testing.T) {
 	run := vk.New("C19", "roundtrip")
 	defer run.Finish()
@@ -338,6 +391,9 @@ func TestC19RoundTrip(t *testing.T) {
 	for i := 0; i < n; i++ {
 		r := run.Rand(uint64(i))
 		kind := kinds[i%len(kinds)]
+		if i%10 == 0 {
+			batchTrip(run, r, []string{"memory", "sqlite-file", "sqlite-batch3", "memory-paged", "durable"}[(i/10)%5], scratch)
+		}
 		switch i % 6 {
 		case 0, 1, 2:
 			roundTrip(run, r, kind, scratch, genEntity(r), genEntity(r), "Entity", func(a, b Entity) bool {
@@ -356,6 +412,10 @@ func TestC19RoundTrip(t *testing.T) {
 			roundTrip(run, r, kind, scratch, []string{str(r), "x"}, []string{"stale", "y", "z"}, "slice entity", func(a, b []string) bool { return reflect.DeepEqual(a, b) })
 			pe, po := &Named{V: r.IntN(50)}, &Named{V: -2}
 			roundTrip(run, r, kind, scratch, pe, po, "pointer entity", func(a, b *Named) bool { return a != nil && b != nil && *a == *b })
+			// entities whose JSON encoding is null: nil slice, nil map, nil pointer
+			roundTrip(run, r, kind, scratch, []string(nil), []string{"stale"}, "nil slice entity", func(a, b []string) bool { return (len(a) == 0 && len(b) == 0) || reflect.DeepEqual(a, b) })
+			roundTrip(run, r, kind, scratch, map[string]int(nil), map[string]int{"stale": 1}, "nil map entity", func(a, b map[string]int) bool { return (len(a) == 0 && len(b) == 0) || reflect.DeepEqual(a, b) })
+			roundTrip(run, r, kind, scratch, (*Named)(nil), &Named{V: -3}, "nil pointer entity", func(a, b *Named) bool { return (a == nil && b == nil) || (a != nil && b != nil && *a == *b) })
 		}
 	}
 }
